@@ -76,17 +76,17 @@ theorem run_fuel_mono (prog : Prog) (inp : Input) {limit limit' : Nat} (hl : lim
         | resumed ip3 pos3 st3 bts3 =>
           simp only [hbt] at h ⊢
           exact ih' _ _ _ _ _ _ _ h
-      | look dirFwd negate sg eg k =>
+      | look dirFwd negate sg eg k st0 bts0 =>
         simp only [hstep] at h ⊢
-        by_cases hg : sg > eg || eg > st.groups.size
+        by_cases hg : sg > eg || eg > st0.groups.size
         · simp [hg]
         · simp only [hg] at h ⊢
           simp only [Bool.false_eq_true, if_false] at h ⊢
-          have hn : run prog inp limit sf (ip + 1) pos dirFwd st #[.exhausted] (steps + 1)
+          have hn : run prog inp limit sf (ip + 1) pos dirFwd st0 #[.exhausted] (steps + 1)
               (if peak < bts.size then bts.size else peak) ≠ .outOfFuel := by
             intro hc; simp [hc] at h
           rw [ih' _ _ _ _ _ _ _ hn]
-          cases hr : run prog inp limit sf (ip + 1) pos dirFwd st #[.exhausted] (steps + 1)
+          cases hr : run prog inp limit sf (ip + 1) pos dirFwd st0 #[.exhausted] (steps + 1)
               (if peak < bts.size then bts.size else peak) with
           | outOfFuel => exact absurd hr hn
           | error e => simp
@@ -96,8 +96,8 @@ theorem run_fuel_mono (prog : Prog) (inp : Input) {limit limit' : Nat} (hl : lim
             · simp only [hneg] at h ⊢
               simp only [Bool.not_true, Bool.false_eq_true, if_false] at h ⊢
               cases hbt : tryBacktrack prog inp fwd
-                  { st2 with groups := spliceGroups (st.groups.extract sg eg).toList sg st2.groups }
-                  bts with
+                  { st2 with groups := spliceGroups (st0.groups.extract sg eg).toList sg st2.groups }
+                  bts0 with
               | err e => simp
               | exhausted s b => simp
               | resumed ip3 pos3 st3 bts3 =>
@@ -114,8 +114,8 @@ theorem run_fuel_mono (prog : Prog) (inp : Input) {limit limit' : Nat} (hl : lim
             · simp only [hneg] at h ⊢
               simp only [Bool.false_eq_true, if_false] at h ⊢
               cases hbt : tryBacktrack prog inp fwd
-                  { st2 with groups := spliceGroups (st.groups.extract sg eg).toList sg st2.groups }
-                  bts with
+                  { st2 with groups := spliceGroups (st0.groups.extract sg eg).toList sg st2.groups }
+                  bts0 with
               | err e => simp
               | exhausted s b => simp
               | resumed ip3 pos3 st3 bts3 =>
@@ -235,7 +235,7 @@ theorem runStates_fuel_mono (prog : Prog) (inp : Input) {limit limit' : Nat} (hl
 theorem tryAtPos_fuel_mono (prog : Prog) (inp : Input) {fuel fuel' : Nat} (hf : fuel ≤ fuel')
     (init : State) (fwd : Bool) (h : tryAtPos prog inp fuel init fwd ≠ .outOfFuel) :
     tryAtPos prog inp fuel' init fwd = tryAtPos prog inp fuel init fwd :=
-  runStates_fuel_mono prog inp hf fuel fuel' hf _ _ _ _ h
+  runStates_fuel_mono prog inp hf (fuel + 1) (fuel' + 1) (by omega) _ _ _ _ h
 
 theorem attempt_fuel_mono (prog : Prog) (inp : Input) {fuel fuel' : Nat} (hf : fuel ≤ fuel')
     (pos : Nat) (h : attempt prog inp fuel pos ≠ .outOfFuel) :
@@ -311,7 +311,7 @@ inductive StepSpec (prog : Prog) (inp : Input) (ip pos : Nat) (fwd : Bool) (st :
       StepSpec prog inp ip pos fwd st bts (.cont (ip + 1) pos st (bts.push (.setPosition s pos)))
   | look (d neg sg eg k)
       (h : prog.insns[ip]? = some (.lookahead neg sg eg k) ∨ prog.insns[ip]? = some (.lookbehind neg sg eg k)) :
-      StepSpec prog inp ip pos fwd st bts (.look d neg sg eg k)
+      StepSpec prog inp ip pos fwd st bts (.look d neg sg eg k st bts)
   | loopCont (i) (h : prog.insns[ip]? = some i) (hi : isLoopInsn i = true) (nip st' bts')
       (hsz : bts'.size ≤ bts.size + 3) : StepSpec prog inp ip pos fwd st bts (.cont nip pos st' bts')
   | loopBack (i) (h : prog.insns[ip]? = some i) (hi : isLoopInsn i = true) (st' bts')
@@ -614,12 +614,15 @@ theorem insnPush_le_maxPush {prog : Prog} {ip : Nat} {i : Insn} (h : prog.insns[
 
 theorem step_look_push {prog : Prog} {inp : Input} {ip pos : Nat} {fwd : Bool} {st : State}
     {bts : Array BtInsn} {d neg sg eg k}
-    (h : step prog inp ip pos fwd st bts = .look d neg sg eg k) : eg - sg ≤ maxPush prog := by
+    {st0 : State} {bts0 : Array BtInsn}
+    (h : step prog inp ip pos fwd st bts = .look d neg sg eg k st0 bts0) :
+    eg - sg ≤ maxPush prog ∧ st = st0 ∧ bts = bts0 := by
   have hs := step_spec (prog := prog) (inp := inp) (ip := ip) (pos := pos) (fwd := fwd) (st := st)
     (bts := bts)
   rw [h] at hs
   cases hs with
   | look _ _ _ _ _ hin =>
+    refine ⟨?_, rfl, rfl⟩
     rcases hin with hin | hin
     · exact insnPush_le_maxPush hin
     · exact insnPush_le_maxPush hin
@@ -696,9 +699,9 @@ theorem run_peak_bound (prog : Prog) (inp : Input) (limit : Nat) :
         simp only [hstep] at h
         have hsz := step_back_size hstep
         exact hback st2 (steps + 1) _ 0 (by omega) (by simp) bts2 hsz h
-      | look dirFwd negate sg eg k =>
+      | look dirFwd negate sg eg k st0 bts0 =>
         simp only [hstep] at h
-        have hpush := step_look_push hstep
+        obtain ⟨hpush, rfl, rfl⟩ := step_look_push hstep
         rw [hKdef] at hpush
         by_cases hg : sg > eg || eg > st.groups.size
         · simp [hg, Outcome.stats] at h
@@ -1048,13 +1051,13 @@ theorem runStates_peak_bound (prog : Prog) (inp : Input) (limit : Nat) :
           obtain ⟨u, hu, hku⟩ := hticks st2 pk2 (by rw [hr]; rfl)
           simp only [hr] at h
           obtain ⟨t, ht, hk⟩ := ih _ _ _ _ _ _ h
-          simp only [Array.size_setIfInBounds] at hk
+          simp only [Array.size_push, Array.size_pop] at hk
           exact ⟨1 + u + t, by omega, by omega⟩
         | split s2 new st2 pk2 =>
           obtain ⟨u, hu, hku⟩ := hticks st2 pk2 (by rw [hr]; rfl)
           simp only [hr] at h
           obtain ⟨t, ht, hk⟩ := ih _ _ _ _ _ _ h
-          simp only [Array.size_push, Array.size_setIfInBounds] at hk
+          simp only [Array.size_push, Array.size_pop] at hk
           exact ⟨1 + u + t, by omega, by omega⟩
 
 end Regress.VM.Pk
@@ -1090,7 +1093,7 @@ theorem Pk.runStates_peak_le (prog : Prog) (inp : Input) (limit sf : Nat) (state
 
 theorem Pk.tryAtPos_peak_le (prog : Prog) (inp : Input) (fuel : Nat) (init : Pk.State) (fwd : Bool)
     (s' k' : Nat) (h : (Pk.tryAtPos prog inp fuel init fwd).stats = some (s', k')) : k' ≤ s' := by
-  have := Pk.runStates_peak_le prog inp fuel fuel #[init] fwd 0 0 s' k' h
+  have := Pk.runStates_peak_le prog inp fuel (fuel + 1) #[init] fwd 0 0 s' k' h
   rw [show (#[init] : Array Pk.State).size = 1 from rfl] at this
   omega
 
@@ -1701,8 +1704,9 @@ theorem step_back_same (hf : forwardProg prog = true) {st' bts'}
     simp at this
 
 theorem step_look_fwd (hf : forwardProg prog = true) {d neg sg eg k}
-    (h : step prog inp ip pos fwd st bts = .look d neg sg eg k) :
-    ip < prog.insns.size ∧ ip < k := by
+    {st0 : State} {bts0 : Array BtInsn}
+    (h : step prog inp ip pos fwd st bts = .look d neg sg eg k st0 bts0) :
+    ip < prog.insns.size ∧ ip < k ∧ st = st0 ∧ bts = bts0 := by
   have hs := step_spec (prog := prog) (inp := inp) (ip := ip) (pos := pos) (fwd := fwd) (st := st)
     (bts := bts)
   rw [h] at hs
@@ -1711,10 +1715,10 @@ theorem step_look_fwd (hf : forwardProg prog = true) {d neg sg eg k}
     rcases hin with hin | hin
     · have := forwardProg_insn hf hin
       simp only [fwdInsn, decide_eq_true_eq] at this
-      exact ⟨lt_size_of_getElem? hin, this⟩
+      exact ⟨lt_size_of_getElem? hin, this, rfl, rfl⟩
     · have := forwardProg_insn hf hin
       simp only [fwdInsn, decide_eq_true_eq] at this
-      exact ⟨lt_size_of_getElem? hin, this⟩
+      exact ⟨lt_size_of_getElem? hin, this, rfl, rfl⟩
 
 end
 end Regress.VM.Bt
@@ -1798,9 +1802,9 @@ theorem run_terminates (prog : Prog) (hf : forwardProg prog = true) (inp : Input
       have := step_back_same hf hstep
       subst this
       exact hback st2 (steps + 1) peak1 (by omega)
-    | look dirFwd negate sg eg k =>
+    | look dirFwd negate sg eg k st0 bts0 =>
       simp only []
-      obtain ⟨hlt, hk⟩ := step_look_fwd hf hstep
+      obtain ⟨hlt, hk, rfl, rfl⟩ := step_look_fwd hf hstep
       have hsucc := tickB_succ (L := inp.bytes.size) hlt
       have hanti := tickB_anti prog.insns.size inp.bytes.size (show ip + 1 ≤ k by omega)
       have hB1 := tickB_pos prog.insns.size inp.bytes.size (ip + 1)
@@ -2310,14 +2314,14 @@ theorem runStates_terminates (prog : Prog) (hf : forwardProg prog = true)
         exact Outcome.within_mono (by omega) (ih rest fwd st2 pk2 (by omega) (by omega))
       | cont s2 st2 pk2 =>
         rw [hr] at hok; simp only [SM.Ok] at hok
-        simp only [setIfInBounds_push_last]
+        simp only [Array.pop_push]
         have := ih (rest.push s2) fwd st2 pk2 (by rw [costSum_push]; omega)
           (by rw [costSum_push]; omega)
         rw [costSum_push] at this
         exact Outcome.within_mono (by omega) this
       | split s2 new st2 pk2 =>
         rw [hr] at hok; simp only [SM.Ok] at hok
-        simp only [setIfInBounds_push_last]
+        simp only [Array.pop_push]
         have := ih ((rest.push s2).push new) fwd st2 pk2
           (by rw [costSum_push, costSum_push]; omega) (by rw [costSum_push, costSum_push]; omega)
         rw [costSum_push, costSum_push] at this
@@ -2325,12 +2329,12 @@ theorem runStates_terminates (prog : Prog) (hf : forwardProg prog = true)
 
 theorem tryAtPos_terminates (prog : Prog) (hf : forwardProg prog = true)
     (hl1 : loop1Scm prog = true) (inp : Input) (fuel : Nat) (init : State) (fwd : Bool)
-    (h : tickB prog.insns.size inp.bytes.size init.ip + 1 ≤ fuel) :
+    (h : tickB prog.insns.size inp.bytes.size init.ip ≤ fuel) :
     (tryAtPos prog inp fuel init fwd).within (tickB prog.insns.size inp.bytes.size init.ip) := by
   have e : costSum prog inp.bytes.size fwd #[init] = cost prog inp.bytes.size fwd init := by
     simp [costSum]
   have hc := cost_le_tickB prog inp.bytes.size fwd init
-  have := runStates_terminates prog hf hl1 inp fuel fuel #[init] fwd 0 0
+  have := runStates_terminates prog hf hl1 inp fuel (fuel + 1) #[init] fwd 0 0
     (by rw [e]; omega) (by rw [e]; omega)
   rw [e] at this
   exact Outcome.within_mono (by omega) this
